@@ -17,7 +17,7 @@ RULE = (
     'above >= 2 knots with a conductivity ratio >= 100 between neighbours; distinct by (parameter digest, level).'
 )
 ASSUMPTIONS = ['levels above the highest knot are outside the property (the code refuses them with NotImplementedError)']
-SIZES = {'quick': dict(sets=300, levels=24), 'thorough': dict(sets=12000, levels=40)}
+SIZES = {'quick': dict(sets=1000, levels=24), 'thorough': dict(sets=12000, levels=40)}
 REQUIRED = {
     tier: {
         'values-vs-closed-form': 4000,
